@@ -2,8 +2,8 @@
 from .. import bb, chain as K, gen_chain as GC, gen_scripts as G, scriptcheck as S
 
 NAMESPACE = "Rbp.Props.C16"
-REQUIRED = ["single_push_fork", "single_push_btc", "lines_in_chain_order"]
-LEAN_FILES = ["Rbp/Model/Script.lean", "Rbp/Model/Lossy.lean"]
+REQUIRED = ["single_push_fork", "single_push_btc", "lines_in_chain_order", "valid_iff_scalar_encoding", "lossy_output_valid", "lossy_valid_id"]
+LEAN_FILES = ["Rbp/Model/Script.lean", "Rbp/Model/Lossy.lean", "Rbp/Proofs/Utf8Spec.lean", "Rbp/Proofs/Lossy.lean"]
 RULE = ("OP_RETURN payload reported by the real evaluator (the string the opreturn callback prints) vs the Lean model, all 8 version bytes; payload families: ASCII, multi-byte UTF-8, "
         "invalid UTF-8 (overlongs, surrogates, truncated tails), empty; every push form that can carry them (direct / PUSHDATA1/2/4; 76..80 bytes need PUSHDATA1), lengths up to 65536; "
         "scripts with trailing tokens or several pushes (not the single-push template); non-trivial = model types the script OpReturn or it is a mutation of one; distinct (version, script) pairs")
@@ -56,7 +56,7 @@ def correspondence(ctx):
 
 def utf8_family(ctx, r):
     """ties the three notions of `valid UTF-8` the theorems mention to the code: Unicode Table 3-7 as the recogniser `L.valid`
-    (theorem lossy_valid_id), core Lean's validateUTF8 (the model's Bitcoin path) and Rust's String::from_utf8 (the code's Bitcoin
+    (theorems lossy_valid_id, valid_iff_scalar_encoding; since round 5 also the model's Bitcoin path), core Lean's validateUTF8 (an independent implementation, compared here) and Rust's String::from_utf8 (the code's Bitcoin
     path: the payload is printed iff valid); and the lossy decoder of the fork path (model L.lossy vs Rust from_utf8_lossy)"""
     pool = []
     two = [bytes([a, b]) for a in (0xC0, 0xC1, 0xC2, 0xDF, 0xE0, 0xED, 0xEF, 0xF0, 0xF4, 0xF5, 0xFF, 0x80, 0xBF) for b in (0x7F, 0x80, 0x8F, 0x90, 0x9F, 0xA0, 0xBF, 0xC0)]
